@@ -8,13 +8,15 @@ from vlib import c21_lib
 
 ID = 'C21'
 LEVEL = 'exploration'
-RULE = ('A case = initial data (2 parents, 4 children, 3 tags, links) + a reader script (attribute reads, to_dict, load, len / '
+RULE = ('A case = initial data (3 parents, 4 children, 3 tags, links) + a reader script (attribute reads, to_dict, load, len / '
         'iteration / count / in / is_empty / bool / load of collections on both sides of the many-to-many and on the one-to-many, '
         're-fetching queries with fresh parameters: whole tables, children of a parent, collection.select(), prefetch of '
         'collections and references, (object, reference) pairs, get/index, and "read again everything observed so far") + 1-2 '
         'writer scripts (scalar updates, moving a child to another parent / to None, deleting children / parents / tags, '
         'creating a child, adding / removing many-to-many links, intermediate commits) + a schedule (one choice among runnable '
-        'actors per operation) + a layout (Database per actor / one shared Database). Oracle: for every (object, non-volatile '
+        'actors per operation) + a layout (Database per actor / one shared Database); three generators: free scripts, observe / '
+        'concurrent change / re-fetch / read again, and batch loads (the collection loaded on two owners, a third owner observed, '
+        'concurrent change, then count()/len()/is_empty()/in). Oracle: for every (object, non-volatile '
         'attribute) and every collection that has been completely loaded and observed (len or iteration), each later read by the '
         'same session (attribute, len, iteration, and for such collections count / in / is_empty / bool) equals the first '
         'observation; a read may instead raise UnrepeatableReadError (or a lock error); an internal error (AssertionError, '
@@ -25,7 +27,7 @@ ASSUMPTIONS = ['SQLite only (file database, timeout=0)',
                'a collection counts as completely loaded once len() or iteration has returned (documented behaviour of Set)',
                'the committed state read through a plain sqlite3 connection is used only to measure non-triviality']
 SHARDS = {'quick': 4, 'thorough': 16}
-MIN_EVALS = {'quick': 1200, 'thorough': 20000}
+MIN_EVALS = {'quick': 3000, 'thorough': 20000}
 CLASS_FLOORS = {'reread_after_change': 0.10, 'unrepeatable': 0.05, 'coll_observed': 0.30}
 
 
@@ -54,7 +56,7 @@ MANIFEST = {
             'writer sessions (updates, child moves, deletes, many-to-many link changes) on a SQLite file; every value the reader '
             'observes (attributes, completely loaded collections via len/iteration, then count/in/is_empty) is compared with its '
             'first observation of the same thing; a later read may only return the same value or raise UnrepeatableReadError.',
-    'note': 'SQLite only; bounded scripts (reader <= 9 operations, writers <= 5, 2 parents / 5 children / 3 tags); the oracle is '
+    'note': 'SQLite only; bounded scripts (reader <= 9 operations, writers <= 5, 3 parents / 5 children / 3 tags); the oracle is '
             'self-consistency of the reader, so it trusts only the scheduler and hypothesis generation; cannot establish absence.',
     'technique': 'property-based testing of generated schedules with a deterministic one-runnable-thread scheduler',
 }
@@ -65,8 +67,8 @@ def _strategies():
     c = st.integers(0, 13)
     rop = st.sampled_from(c21_lib.READER_OPS).flatmap(lambda k: st.tuples(st.just(k), c, c, c)).map(list)
     wop = st.sampled_from(c21_lib.WRITER_OPS).flatmap(lambda k: st.tuples(st.just(k), c, c, c)).map(list)
-    data = st.fixed_dictionaries({'kids': st.lists(st.integers(0, 3), min_size=4, max_size=4),
-                                  'links': st.lists(st.integers(0, 7), min_size=2, max_size=2),
+    data = st.fixed_dictionaries({'kids': st.lists(st.integers(0, 5), min_size=4, max_size=4),
+                                  'links': st.lists(st.integers(0, 7), min_size=3, max_size=3),
                                   'vals': st.lists(st.integers(0, 3), min_size=19, max_size=19)})
     layout = st.sampled_from(['multi', 'multi', 'shared'])
     schedule = st.lists(st.integers(0, 2), min_size=12, max_size=30)
@@ -98,8 +100,9 @@ def race_strategy():
             if how in ('count', 'in', 'empty', 'cload'):
                 obs = [[draw(st.sampled_from(['len', 'iter'])), ci, a, b]] + obs
             if target == 'kids':
-                change = draw(st.sampled_from([['move', b, a + 1, 0], ['move', b, a, 0], ['move', b, 2, 0], ['delk', b, 0, 0],
-                                               ['newk', 0, a, 0], ['delp', a, 0, 0]]))
+                here = [0, 1, 3][a % 3]                      # index of the observed parent in the writer's parent table
+                change = draw(st.sampled_from([['move', b, (here + 1) % 4, 0], ['move', b, here, 0], ['move', b, 2, 0],
+                                               ['delk', b, 0, 0], ['newk', 0, here, 0], ['delp', a, 0, 0]]))
             elif target == 'tags':
                 change = draw(st.sampled_from([['tag', a, b, 0], ['untag', a, b, 0], ['delt', b, 0, 0], ['delp', a, 0, 0]]))
             else:
@@ -135,6 +138,47 @@ def race_strategy():
     return build()
 
 
+def batch_strategy():
+    """several owners in the cache, the same collection attribute loaded on two of them (the second load batch-loads the
+    others), a third owner's collection observed through len()/iteration, a writer changes that collection and commits,
+    then the reader asks count() / len() / is_empty() / in again"""
+    st, c, rop, wop, data, layout, schedule = _strategies()
+
+    @st.composite
+    def build(draw):
+        ci = draw(st.integers(0, 2))                    # P.kids, P.tags, T.ps
+        ent = c21_lib.COLLS[ci][0]
+        owners = draw(st.permutations([0, 1, 2]))
+        x, y, z = owners
+        intro = draw(st.sampled_from([[['query', 1 if ent == 'P' else 2, 0, 0]],
+                                      [['attr', 0 if ent == 'P' else 2, o, 0] for o in (x, y, z)]]))
+        loads = [[draw(st.sampled_from(['len', 'iter', 'cload', 'in'])), ci, x, draw(c)],
+                 [draw(st.sampled_from(['len', 'iter', 'cload'])), ci, y, draw(c)]]
+        observe = [[draw(st.sampled_from(['len', 'iter'])), ci, z, 0]]
+        b = draw(c)
+        if ci == 0:
+            here = [0, 1, 3][z]
+            change = draw(st.sampled_from([['newk', 0, here, b], ['move', b, here, 0], ['move', b, (here + 1) % 4, 0],
+                                           ['delk', b, 0, 0]]))
+        elif ci == 1:
+            change = draw(st.sampled_from([['tag', z, b, 0], ['untag', z, b, 0]]))
+        else:
+            change = draw(st.sampled_from([['tag', b, z, 0], ['untag', b, z, 0]]))
+        after = draw(st.lists(st.sampled_from([['count', ci, z, 0], ['count', ci, z, 0], ['len', ci, z, 0], ['empty', ci, z, 0],
+                                               ['in', ci, z, b], ['reread', 0, 0, 0], ['count', ci, x, 0]]),
+                              min_size=1, max_size=3))
+        reader_ops = intro + loads + observe + after
+        writer_ops = [change] + draw(st.lists(wop, max_size=1))
+        k = len(intro) + len(loads) + len(observe)
+        sch = [0] * k + [1] * (len(writer_ops) + 1) + [0] * (len(after) + 1)
+        for pos, val in draw(st.lists(st.tuples(st.integers(0, len(sch) - 1), st.integers(0, 1)), max_size=2)):
+            sch[pos] = val
+        return {'layout': draw(layout), 'data': draw(data),
+                'actors': [{'session': {}, 'ops': reader_ops, 'end': 'commit'}, {'session': {}, 'ops': writer_ops, 'end': 'commit'}],
+                'schedule': sch}
+    return build()
+
+
 def run(ctx):
     env = c21_lib.Env(ctx.workdir)
 
@@ -151,9 +195,11 @@ def run(ctx):
         if verdict.message is not None:
             ctx.fail(case, verdict.message)
     try:
-        ctx.run_test(t, {'case': case_strategy()}, max_examples=ctx.scale(200, 900), name='schedules')
+        ctx.run_test(t, {'case': case_strategy()}, max_examples=ctx.scale(400, 800), name='schedules')
         if ctx.violation is None:
-            ctx.run_test(t, {'case': race_strategy()}, max_examples=ctx.scale(250, 1100), name='races')
+            ctx.run_test(t, {'case': race_strategy()}, max_examples=ctx.scale(450, 900), name='races')
+        if ctx.violation is None:
+            ctx.run_test(t, {'case': batch_strategy()}, max_examples=ctx.scale(200, 400), name='batches')
     finally:
         env.close()
 
